@@ -1,6 +1,7 @@
 package main
 
 import (
+	"go/token"
 	"fmt"
 	"go/ast"
 	"os/exec"
@@ -281,6 +282,35 @@ func ruleKernelCalls(c *Ctx) {
 		if !extra[a] {
 			f2 = append(f2, a)
 		}
+	}
+	// each wrapper returns the kernel's result, or 0 for an empty buffer — nothing else
+	for _, wr := range []struct {
+		fd     *ast.FuncDecl
+		kernel string
+	}{{w2, "_find_structural_bits_in_slice"}, {w5, "_find_structural_bits_in_slice_avx512"}} {
+		sps, ok := p.SymPaths(wr.fd, 200, nil)
+		bad := ""
+		nk := 0
+		if !ok || len(sps) == 0 {
+			bad = "no paths"
+		}
+		for _, sp := range sps {
+			if !sp.Feasible() || sp.RetNode == nil || len(sp.Ret) != 1 {
+				continue
+			}
+			r := sp.Ret[0].String()
+			switch {
+			case strings.HasPrefix(r, wr.kernel+"("):
+				nk++
+			case r == "0" && hasCond(sp, "len(P:buf)", token.EQL, "0"):
+			default:
+				bad = "a path returns " + trunc(r, 60) + condsDesc(sp, 3)
+			}
+		}
+		if nk == 0 && bad == "" {
+			bad = "no path returns the kernel's result"
+		}
+		c.Check(bad == "", "wrappers:result:"+wr.kernel, p.Pos(wr.fd), "returns the kernel's count (0 for an empty buffer)", "the Go wrapper of "+wr.kernel+" does not return exactly the kernel's processed-bytes count: "+bad+" — the buffer loop of stage 1 then skips or re-reads input", "any input longer than 64 bytes")
 	}
 	c.Check(len(a5) > 8 && strings.Join(f2, "|") == strings.Join(a5, "|"), "wrappers:forwarding", p.Pos(w5), "both wrappers forward the same buffer, carried-state pointers, fill limit and ndjson flag", "the two Go wrappers forward different arguments to their kernels: "+strings.Join(f2, ",")+" vs "+strings.Join(a5, ","), "")
 }
